@@ -1,7 +1,78 @@
 import Cherab.Drv.Proto
-open Cherab.Drv
+import Cherab.Model.Admt
+import Cherab.Gen.Admt
+open Cherab.Drv Cherab.Admt Cherab.Gen.Admt
 
-/-- C20 driver: not yet implemented (echo) -/
+instance : Zero Float := ⟨0.0⟩
+
+def pairs : List Float → List (Float × Float)
+  | a :: b :: t => (a, b) :: pairs t
+  | _ => []
+
+def chunks (k : Nat) : Nat → List Float → List (List Float)
+  | 0, _ => []
+  | n + 1, l => l.take k :: chunks k n (l.drop k)
+
+def cellsOf : Nat → List String → List (Int × Int) × List String
+  | 0, ts => ([], ts)
+  | n + 1, a :: b :: ts => let (r, rest) := cellsOf n ts; ((pI a, pI b) :: r, rest)
+  | _, _ => ([], [])
+
+/-- `ops n (ix iy)*n nv (x y)*(n*nv)` -/
+def doOps (ts : List String) : String :=
+  match ts with
+  | nS :: rest =>
+    let n := pN nS
+    let (cells, rest) := cellsOf n rest
+    match rest with
+    | nvS :: fl =>
+      let nv := pN nvS
+      let verts := (chunks (2 * nv) n (fl.map pF)).map pairs
+      let centres := verts.map centre
+      match extractSteps centres with
+      | none => "ValueError"
+      | some (dx, dy) =>
+        let tabs := cells.map (rowTable cells)
+        if tabs.any (·.isNone) then "IndexError" else
+        let rows := (cells.zip tabs).toArray
+        let out := Op5.all.map fun op =>
+          (List.range n).map fun i =>
+            match rows[i]! with
+            | (c, some t) => (List.range n).map fun j => opEntry cells dx dy c t op j
+            | _ => []
+        "ok " ++ fFs ([dx, dy] ++ out.flatten.flatten)
+    | _ => "bad-op"
+  | _ => "bad-op"
+
+def matOf (n : Nat) (a : Array Float) (off : Nat) : Nat → Nat → Float := fun i j => a[off + i * n + j]!
+
+/-- `admt n aniso dx dy radii*n psi*n Dx*n² Dy*n² Dxx*n² Dxy*n² Dyy*n²` -/
+def doAdmt (ts : List String) : String :=
+  match ts with
+  | nS :: an :: dx :: dy :: fl =>
+    let n := pN nS
+    let a := (fl.map pF).toArray
+    let radii : Nat → Float := fun i => a[i]!
+    let psi : Nat → Float := fun i => a[n + i]!
+    let M : Op5 → Nat → Nat → Float
+      | .Dx => matOf n a (2 * n) | .Dy => matOf n a (2 * n + n * n) | .Dxx => matOf n a (2 * n + 2 * n * n)
+      | .Dxy => matOf n a (2 * n + 3 * n * n) | .Dyy => matOf n a (2 * n + 4 * n * n)
+    let out := (List.range n).map fun i =>
+      let k := admtCoeffs n radii M psi (pF an) i
+      (List.range n).map fun j => admtEntryOf Float.sqrt M (pF dx) (pF dy) k i j
+    fFs out.flatten
+  | _ => "bad-op"
+
+def step (ts : List String) : String :=
+  match ts with
+  | "ops" :: r => doOps r
+  | "admt" :: r => doAdmt r
+  | ["coef", an, rr, a1, a2, a3, a4, a5, a6, a7, a8, a9] =>
+      let k := coeffs (pF an) (pF rr) (pF a1) (pF a2) (pF a3) (pF a4) (pF a5) (pF a6) (pF a7) (pF a8) (pF a9)
+      fFs [k.cx, k.cy, k.cxx, k.cxy, k.cyy]
+  | ["slot"] => (repr dnormCxSlot).pretty
+  | _ => "bad-op"
+
 def main : IO UInt32 := do
-  loop (stateless fun ts => " ".intercalate ts) (← IO.getStdin) (← IO.getStdout) ()
+  loop (stateless step) (← IO.getStdin) (← IO.getStdout) ()
   return 0
